@@ -564,3 +564,102 @@ pub(crate) fn run_c18api(_replay: Option<&str>) -> Report {
     rep.machinery_error = take_machinery();
     rep
 }
+
+/// C17, handler level: "a path added through the API is listed with the same content" through the
+/// real AddPath / ListPath / DeletePath handlers, for the global table and for a VRF, with several
+/// paths of one prefix told apart by their identifier.
+pub(crate) fn run_c17api(_replay: Option<&str>) -> Report {
+    use api::go_bgp_service_server::GoBgpService;
+    use futures::StreamExt;
+    let mut rep = Report::new("C17", "hd-c17api");
+    rep.rule = "AddPath through the real gRPC handler into (the global table | a VRF) for identifier lists [0], [7], [7, 9], [0, 9], each path with its own MED; ListPath must return exactly the (identifier, MED) pairs added; after DeletePath of the first one, exactly the rest".into();
+    let rt = runtime();
+    let med_of = |p: &api::Path| -> Option<u32> {
+        p.pattrs.iter().find_map(|a| match &a.attr {
+            Some(api::attribute::Attr::MultiExitDisc(m)) => Some(m.med),
+            _ => None,
+        })
+    };
+    for vrf in [false, true] {
+        for ids in [vec![0u32], vec![7], vec![7, 9], vec![0, 9]] {
+            let case = format!("addpath#{}#{:?}", if vrf { "vrf" } else { "global" }, ids);
+            let r: Result<Option<String>, String> = rt.block_on(async {
+                let d = Daemon::new(2);
+                let svc = super::super::grpc::GrpcService::new(Arc::new(tokio::sync::Notify::new()), d.active_tx.clone(), d.global.clone(), d.tables.clone());
+                if vrf {
+                    let rtarget = api::RouteTarget { rt: Some(api::route_target::Rt::TwoOctetAsSpecific(api::TwoOctetAsSpecificExtended { is_transitive: true, sub_type: 2, asn: 65000, local_admin: 100 })) };
+                    svc.add_vrf(tonic::Request::new(api::AddVrfRequest {
+                        vrf: Some(api::Vrf {
+                            name: "vrf1".into(),
+                            rd: Some(api::RouteDistinguisher { rd: Some(api::route_distinguisher::Rd::TwoOctetAsn(api::RouteDistinguisherTwoOctetAsn { admin: 65000, assigned: 100 })) }),
+                            import_rt: vec![rtarget.clone()],
+                            export_rt: vec![rtarget],
+                            ..Default::default()
+                        }),
+                    }))
+                    .await
+                    .map_err(|e| format!("add_vrf: {e}"))?;
+                }
+                let mut want: Vec<(u32, Option<u32>)> = Vec::new();
+                let mut uuids = Vec::new();
+                for (i, id) in ids.iter().enumerate() {
+                    let med = 70 + 10 * i as u32;
+                    let path = api::Path {
+                        identifier: *id,
+                        nlri: Some(api::Nlri { nlri: Some(api::nlri::Nlri::Prefix(api::IpAddressPrefix { prefix_len: 24, prefix: "10.9.0.0".into() })) }),
+                        pattrs: vec![
+                            api::Attribute { attr: Some(api::attribute::Attr::Origin(api::OriginAttribute { origin: 0 })) },
+                            api::Attribute { attr: Some(api::attribute::Attr::NextHop(api::NextHopAttribute { next_hop: "10.0.0.1".into() })) },
+                            api::Attribute { attr: Some(api::attribute::Attr::MultiExitDisc(api::MultiExitDiscAttribute { med })) },
+                        ],
+                        ..Default::default()
+                    };
+                    let resp = svc
+                        .add_path(tonic::Request::new(api::AddPathRequest { table_type: if vrf { api::TableType::Vrf as i32 } else { api::TableType::Global as i32 }, vrf_id: if vrf { "vrf1".into() } else { String::new() }, path: Some(path) }))
+                        .await
+                        .map_err(|e| format!("add_path: {e}"))?;
+                    uuids.push(resp.into_inner().uuid);
+                    want.push((*id, Some(med)));
+                }
+                macro_rules! list {
+                    () => {{
+                        let fam = if vrf { api::Family { afi: 1, safi: 128 } } else { api::Family { afi: 1, safi: 1 } };
+                        let s = svc.list_path(tonic::Request::new(api::ListPathRequest { table_type: api::TableType::Global as i32, family: Some(fam), ..Default::default() })).await.map_err(|e| format!("list_path: {e}"))?.into_inner();
+                        let v: Vec<_> = s.collect::<Vec<_>>().await;
+                        let mut got: Vec<(u32, Option<u32>)> = v.into_iter().filter_map(|r| r.ok()?.destination).flat_map(|d| d.paths.into_iter()).map(|p| (p.identifier, med_of(&p))).collect();
+                        got.sort();
+                        got
+                    }};
+                }
+                want.sort();
+                let got = list!();
+                if got != want {
+                    return Ok(Some(format!("listed-differs: added (identifier, MED) {:?}, ListPath returns {:?}", want, got)));
+                }
+                svc.delete_path(tonic::Request::new(api::DeletePathRequest { uuid: uuids[0].clone(), ..Default::default() })).await.map_err(|e| format!("delete_path: {e}"))?;
+                let first = (ids[0], Some(70u32));
+                let want2: Vec<_> = want.iter().filter(|x| **x != first).cloned().collect();
+                let got2 = list!();
+                if got2 != want2 {
+                    return Ok(Some(format!("after-delete-differs: after DeletePath of {:?} the paths {:?} remain to be listed, ListPath returns {:?}", first, want2, got2)));
+                }
+                Ok(None)
+            });
+            rep.evaluations += 1;
+            match r {
+                Err(e) => {
+                    rep.machinery_error = Some(format!("c17 api ({case}): {e}"));
+                    return rep;
+                }
+                Ok(None) => {}
+                Ok(Some(msg)) => {
+                    let clause = msg.split(':').next().unwrap_or("").to_string();
+                    rep.violation(Violation { sig: format!("C17/api/add-list/{}/{clause}", if vrf { "vrf" } else { "global" }), what: format!("{case}: {msg}"), case });
+                }
+            }
+        }
+    }
+    rep.exhaustive = true;
+    rep.machinery_error = take_machinery();
+    rep
+}
